@@ -138,7 +138,7 @@ TLoopExit == /\ Line("LoopExit")
 
 \* lines that carry no action of the model
 TOther == /\ l <= Len(Rec)
-          /\ \/ Rec[l].ev \in {"Quiescent", "Exit", "End", "Dwell", "Refs", "WarmupDone", "Note"}
+          /\ \/ Rec[l].ev \in {"Quiescent", "Exit", "End", "Dwell", "Refs", "WarmupDone", "Note", "RouterNew", "Other"}
              \/ Rec[l].ev \in {"SendReq", "ReqTaken", "Resp", "WGone", "Gate"} /\ Probe(Rec[l])
           /\ l' = l + 1
           /\ Stutter
